@@ -581,6 +581,8 @@ func profileForTier(prop string) *Profile {
 		p.PBoundary = 0.4
 		p.PSlash = 0.1
 	case "C19":
+		p.PBurst = 0.12 // entries that tie on sort keys: same-block exits of several delegators
+		p.PSlash = 0.1
 		p.PCrash = 0.08
 		p.MaxBlocks = 35
 		p.FeeTopups = true
@@ -733,7 +735,20 @@ func (g *genState) burst(bi int) {
 	}
 	exit := func() *Amt { return []*Amt{{Pct: r.Range(10, 90)}, {All: true}, {Pct: 50}}[r.Intn(3)] }
 	slashAt := bi + 2 + r.Intn(3)
-	switch r.Intn(4) {
+	switch r.Intn(5) {
+	case 4: // several delegators leave one validator for the same destination in one block (entries that tie on every
+		// sort key except the delegator), then the source is slashed
+		who2 := (who + 1) % g.cfg.Delegators
+		who3 := (who + 2) % g.cfg.Delegators
+		for _, w := range []int{who, who2, who3} {
+			g.futureOps[bi] = append(g.futureOps[bi], Op{K: "delegate", Who: w, Val: va, Denom: d1, Amt: amt()})
+			g.futureOps[bi+1] = append(g.futureOps[bi+1], Op{K: "redelegate", Who: w, Val: va, Dst: vb, Denom: d1, Amt: exit()})
+			g.addPos(w, vb, d1)
+		}
+		if r.Chance(0.5) {
+			g.futureOps[bi+1] = append(g.futureOps[bi+1], Op{K: "undelegate", Who: who2, Val: va, Denom: d1, Amt: &Amt{Pct: 50}}, Op{K: "undelegate", Who: who3, Val: va, Denom: d1, Amt: &Amt{Pct: 50}})
+		}
+		g.futureSlash[slashAt] = append(g.futureSlash[slashAt], Op{K: "slash_direct", Val: va, Fraction: frac, Age: 1})
 	case 0: // same block: exits from one validator in two denoms and from a second validator
 		g.futureOps[bi] = append(g.futureOps[bi], Op{K: "delegate", Who: who, Val: va, Denom: d1, Amt: amt()}, Op{K: "delegate", Who: who, Val: va, Denom: d2, Amt: amt()}, Op{K: "delegate", Who: who, Val: vb, Denom: d1, Amt: amt()})
 		g.futureOps[bi+1] = append(g.futureOps[bi+1], Op{K: "undelegate", Who: who, Val: va, Denom: d1, Amt: exit()}, Op{K: "undelegate", Who: who, Val: va, Denom: d2, Amt: exit()}, Op{K: "undelegate", Who: who, Val: vb, Denom: d1, Amt: exit()})
